@@ -821,6 +821,12 @@ func (t *trans) call(c *ast.CallExpr) string {
 				}
 			}
 		}
+		if f.Sel.Name == "List" && len(c.Args) == 1 {
+			if inner, ok := f.X.(*ast.SelectorExpr); ok && inner.Sel.Name == "Store" {
+				t.addExtern("storeList", "String → Outcome ((List String) × GoError)")
+				return "(← env.storeList " + t.expr(c.Args[0]) + ")"
+			}
+		}
 		if f.Sel.Name == "Delete" && len(c.Args) == 1 {
 			if inner, ok := f.X.(*ast.SelectorExpr); ok && inner.Sel.Name == "Store" {
 				t.addExtern("storeDelete", "String → Outcome GoError")
@@ -2196,6 +2202,7 @@ func translate(repo string, p *pkgFiles, outPath string) {
 		{fn: "HandlePutService", recv: "Server", mutRecv: true, trace: true},
 		{fn: "HandleDeleteService", recv: "Server", mutRecv: true, trace: true},
 		{fn: "GetServiceProvider", recv: "Server"},
+		{fn: "initializeServices", recv: "Server", mutRecv: true},
 		{fn: "GetSession", recv: "Server", as: "credentialGuards", trace: true, inside: "if r.Method == \"POST\" && r.PostForm.Get(\"user\") != \"\" {", until: "session := &saml.Session{"},
 		{fn: "GetSession", recv: "Server", as: "cookieSession", trace: true, anchor: "if sessionCookie, err := r.Cookie(\"session\"); err == nil {"},
 	}
